@@ -213,11 +213,32 @@ func genOp(rng *prng.R, hostiles *int) drv.Op {
 // setup: a session that starts with a small tree and fids at several depths.
 func setupOps(rng *prng.R) []drv.Op {
 	ops := []drv.Op{{Kind: "attach", Fid: 0}}
+	nochange := func(name string) drv.Op {
+		return drv.Op{Kind: "wstat", Fid: 0, Name: name, WMode: 0xFFFFFFFF, WLen: ^uint64(0)}
+	}
+	d := uint32(0x80000000 | 0o755)
+	// attacks on the root itself while the export is EMPTY (rmdir / rename of an
+	// empty directory would succeed on the host if ufs let them through)
+	switch rng.Intn(14) {
+	case 0: // fresh attach
+		return append(ops, drv.Op{Kind: "remove", Fid: 0})
+	case 1: // a clone of the root
+		return append(ops, drv.Op{Kind: "walk", Fid: 0, NewFid: 1}, drv.Op{Kind: "remove", Fid: 1})
+	case 2: // a fid walked back to the root with "..", export emptied again first
+		return append(ops,
+			drv.Op{Kind: "walk", Fid: 0, NewFid: 1},
+			drv.Op{Kind: "create", Fid: 1, Name: "a", Perm: d, Mode: 0},
+			drv.Op{Kind: "walk", Fid: 1, NewFid: 2, Names: []string{".."}},
+			drv.Op{Kind: "remove", Fid: 1},
+			drv.Op{Kind: "remove", Fid: 2})
+	case 3: // rename of the empty root: to a sibling, into the outside directory, onto itself
+		return append(ops, nochange([]string{"x", "../x", "../outside/x", "..", ".", "../export2", "a/b"}[rng.Intn(7)]),
+			drv.Op{Kind: "remove", Fid: 0})
+	}
 	if rng.Chance(1, 8) {
 		return ops
 	}
 	// fid 1: /a (dir), fid 2: /a/b (dir), fid 3: /a/b/c (dir or file), fid 4: /f (file)
-	d := uint32(0x80000000 | 0o755)
 	ops = append(ops,
 		drv.Op{Kind: "walk", Fid: 0, NewFid: 1},
 		drv.Op{Kind: "create", Fid: 1, Name: "a", Perm: d, Mode: 0},
@@ -243,7 +264,7 @@ func setupOps(rng *prng.R) []drv.Op {
 func main() {
 	r := rep.Open()
 	defer r.Close()
-	r.Rule = "each case is one ufs session of 25-70 calls on a fresh sandbox: a short set-up (fids at depth 0..3) followed by random Attach/Walk/Create/WStat/Remove/Open/Read/Write/Stat/Clunk calls on fids 0..5, 9 and NOFID; ~30% of walk names, ~35% of create names and ~65% of wstat names are hostile ('..', '.', '', embedded / and \\, absolute, ../ chains longer than the depth, NUL, 255/256/4096-byte names, names of the sandbox's own outside/ directory). A case is non-trivial when it contains at least one hostile name; distinct by canonical case text. Before the sessions: fServer.fullPath, FileRef.fullPath and path.Dir on every string of length <= 6 over {/ . a \\} for three export roots (exhaustive grid)."
+	r.Rule = "each case is one ufs session of up to 70 calls on a fresh sandbox whose server is created from one of 8 equivalent spellings of the export path (clean, trailing '/', '/.', '//', 'x/../export'): a short set-up (fids at depth 0..3, or - 4 in 14 - Remove / WStat-rename of a root fid while the export is empty, from a fresh attach, a clone and a fid walked back with '..') followed by random Attach/Walk/Create/WStat/Remove/Open/Read/Write/Stat/Clunk calls on fids 0..5, 9 and NOFID; ~30% of walk names, ~35% of create names and ~65% of wstat names are hostile ('..', '.', '', embedded / and \\, absolute, ../ chains longer than the depth, NUL, 255/256/4096-byte names, names of the sandbox's own outside/ directory). A case is non-trivial when it contains at least one hostile name; distinct by canonical case text. Before the sessions: fServer.fullPath, FileRef.fullPath and path.Dir on every string of length <= 6 over {/ . a \\} for three export roots (exhaustive grid)."
 	rng := prng.New(r.Seed)
 
 	top, err := os.MkdirTemp("", "verif-c15-")
@@ -266,6 +287,8 @@ func main() {
 
 	nseq := r.N(500, 10000)
 	totalHostile, hostileAccepted, opsTotal, escapes := 0, 0, 0, 0
+	spellings := map[int]int{}
+	rootRemoves := 0
 	maxDepth := 0
 	for i := 0; i < nseq; i++ {
 		crng := rng.Fork()
@@ -284,11 +307,15 @@ func main() {
 			panic(err)
 		}
 		old := syscall.Umask(umask)
-		sess := drv.NewSess(sb.Export)
+		spelling := crng.Intn(drv.NSpellings)
+		spellings[spelling]++
+		sess := drv.NewSess(sb.Spelling(spelling))
 		before := sb.OutsideSnapshot()
 		sb.Events() // the snapshot itself reads S/outside: drop those events
 
-		caseL := []sx.S{sx.Sym("seq"), sx.I(int64(umask))}
+		// (root K): which spelling of the export path the server was created from; the
+		// model's Base is the cleaned path, so the item changes nothing there
+		caseL := []sx.S{sx.Sym("seq"), sx.I(int64(umask)), sx.L(sx.Sym("root"), sx.I(int64(spelling)))}
 		obsL := []sx.S{sx.Sym("obs")}
 		prevTree := ""
 		for _, o := range ops {
@@ -297,6 +324,13 @@ func main() {
 		c := sx.List(caseL)
 		branch := "plain"
 		for oi, o := range ops {
+			if o.Kind == "remove" {
+				for _, f := range sess.Fids() {
+					if f.Fid == o.Fid && f.Path == "/" {
+						rootRemoves++
+					}
+				}
+			}
 			res, data := sess.Do(o)
 			if sess.Dead != "" {
 				r.Fail("ufs.session."+o.Kind+".dead", fmt.Sprintf("op %d %s: %s", oi, sx.String(o.Sexp()), sess.Dead), c, nil)
@@ -385,6 +419,8 @@ func main() {
 	r.Extra["ops_with_hostile_name_accepted"] = hostileAccepted
 	r.Extra["max_depth_reached"] = maxDepth
 	r.Extra["escapes_observed"] = escapes
+	r.Extra["removes_attempted_on_a_root_fid"] = rootRemoves
+	r.Extra["sessions_by_root_spelling"] = spellings
 }
 
 // gridCases: fServer.fullPath / FileRef.fullPath (the only constructors of host
